@@ -96,6 +96,16 @@ fn backquoted(msg: &str) -> Vec<String> {
 }
 
 pub fn judge(c: &Case) -> Verdict {
+    // a quarter of the cases are preceded, on the same thread, by rejected inputs that fail only
+    // after a well-formed prefix of the same keyword (the message must not depend on earlier calls)
+    if stable_hash(&c.input) % 4 == 0 {
+        if let Some(k) = &c.keyword {
+            for junk in ["5x", "10k%", "f5", "u+x,", "'a'b"] {
+                let _ = catch(|| parse(&format!("{k} {junk}")).map(|_| ()).map_err(|e| e.to_string()));
+            }
+        }
+        let _ = catch(|| parse("-true -bogus").map(|_| ()).map_err(|e| e.to_string()));
+    }
     let r = match catch(|| parse(&c.input)) {
         Ok(r) => r,
         Err(p) => return Verdict::Fail(format!("parse panicked on {:?}: {p}", c.input)),
@@ -147,7 +157,7 @@ pub fn replay(case: &Value) -> Result<Verdict, String> {
 }
 
 const PREFIXES: [&str; 9] = ["", "-true ", "-name x -o ", "-uid 1 -a ! ", "-true -name 'a b' -uid 1 ", "( -true ) -o ", "-name café ", "-name 日本語 -o -iname 'é😀' ", "-name\t'x\ny'\n"];
-const SUFFIXES: [&str; 4] = ["", " -print", " -o -name y -print", " -a -uid 2"];
+const SUFFIXES: [&str; 7] = ["", " -print", " -o -name y -print", " -a -uid 2", " ", "\n", " \t "];
 
 pub fn build(kw: &str, lang: Lang, missing: bool, second: bool, bad: usize, pre: usize, suf: usize, paren: bool) -> Option<Case> {
     let prefix = PREFIXES[pre % PREFIXES.len()];
@@ -173,7 +183,7 @@ pub fn build(kw: &str, lang: Lang, missing: bool, second: bool, bad: usize, pre:
         }
     };
     // a missing argument is only missing at the end of the input or before ')'
-    let suffix = if missing { "" } else { SUFFIXES[suf % SUFFIXES.len()] };
+    let suffix = if missing { ["", "", " ", "\n"][suf % 4] } else { SUFFIXES[suf % SUFFIXES.len()] };
     let input = if paren { format!("{prefix}( {body}{suffix} )") } else { format!("{prefix}{body}{suffix}") };
     Some(Case { kind: kind.into(), input, keyword: Some(kw.to_string()), word, first: pre % PREFIXES.len() == 0 && !paren })
 }
